@@ -615,6 +615,13 @@ class RestAPI(object):
                     return aws_error("InvalidName"), 400
 
                 input = params.get("input", "{}")
+                if not isinstance(input, str):  # input must be a JSON *string*
+                    self.logger.error(
+                        "RestAPI StartExecution: input for execution '{}' is "
+                        "not a string.".format(name)
+                    )
+                    return aws_error("InvalidExecutionInput"), 400
+
                 """
                 First check if the input length has exceeded the 262144 character
                 quota described in Stepfunction Quotas page.
